@@ -44,6 +44,21 @@ pub fn set_time(ns: u64) {
     }
 }
 
+/// Fake time of the calling thread only (takes precedence over `set_time`).
+pub fn set_thread_time(ns: u64) {
+    if let Some(p) = sym("verif_seam_set_thread_time") {
+        let f: ArmFn = unsafe { std::mem::transmute(p) };
+        unsafe { f(ns) }
+    }
+}
+
+pub fn clear_thread_time() {
+    if let Some(p) = sym("verif_seam_clear_thread_time") {
+        let f: VoidFn = unsafe { std::mem::transmute(p) };
+        unsafe { f() }
+    }
+}
+
 /// (getrandom calls, bytes served, faked CLOCK_REALTIME reads)
 pub fn stats() -> (u64, u64, u64) {
     let mut out = [0u64; 3];
